@@ -100,7 +100,9 @@ COMPONENTS = {
     'C15': [('leaf', 'leafcheck.py')],
     'C16': [('leaf', 'leafcheck.py'), ('limits', 'check_limits.py')],
     'C09': [('limits', 'check_limits.py')],
-    'C02': [('contexts', 'check_contexts.py')],
+    'C02': [('contexts', 'check_contexts.py'), ('containers', 'check_containers.py')],
+    'C05': [('containers', 'check_containers.py')],
+    'C04': [('threads', 'check_threads.py')],
     'C12': [('leaf', 'leafcheck.py')],
 }
 
